@@ -33,7 +33,9 @@ def cases(draw, tier, det):
             "index": draw(D.index_spec(D.INDEX_KINDS + D.REPEAT_INDEX_KINDS)), "columns": draw(st.sampled_from(D.COLUMN_KINDS)),
             # afterwards, on the same fitted detector: predict on a shorter series - either a new object, or the caller's
             # own frame shortened in place - or on the same buffer refilled with other values
-            "second": draw(st.sampled_from([None, "shrink_inplace", "predict_shorter", "refill", None])),
+            # ... or on a longer recording: the series, two copies of it on a far higher level, the series again (an event
+            # twice as long as the training series, i.e. longer than any admissible maximum length close to n)
+            "second": draw(st.sampled_from([None, "shrink_inplace", "predict_shorter", "refill", None, "predict_longer"])),
             "n2_pick": draw(st.integers(0, 1000)), "drop": draw(st.sampled_from(["tail", "head"]))}
     # CAPA / MVCAPA: a maximum length right at the length of the series (n - 1, n, n + 1), and data far from the zero baseline
     # (a whole-series anomaly is then optimal)
@@ -93,6 +95,10 @@ def run_detector(case):
                 else:
                     obj.iloc[:, :] = X2
                 later = (det.predict(obj), n)
+            elif second == "predict_longer":
+                lift = 10.0 * (1.0 + float(np.abs(X).max()))
+                longer = np.vstack([X, X + lift, X[::-1] + lift, X])
+                later = (det.predict(to_container(case, longer)), 4 * n)
             elif second == "predict_shorter" and n2 is not None:
                 part = X[:n2] if case["drop"] == "tail" else X[n - n2:]
                 later = (det.predict(to_container(case, part)), n2)
